@@ -311,10 +311,19 @@ def qualifiedBy (db : Name) (parts : List Name) (star : Bool) : Bool :=
   | p :: _ => decide (identLen parts star > 1) && decide (lower p = db)
   | [] => false
 
+/-- repaired cut (fixes/C11_2.diff): a two-part identifier that is not a table (`int1.x`, `int1.*`) is left
+alone when `db` is one of `names` = the lower-cased table aliases and CTE names of the query.
+`names = []` is the cut as it is in the code today. -/
+def keepsLocal (db : Name) (names : List Name) (isTab : Bool) (parts : List Name) (star : Bool) : Bool :=
+  !isTab && identLen parts star == 2 && names.contains db
+
+def stripPartsN (db : Name) (names : List Name) (isTab : Bool) (parts : List Name) (star : Bool) : List Name :=
+  if keepsLocal db names isTab parts star then parts else stripParts db parts star
+
 /-- the callback of `prepare_integration_select` on an identifier -/
-def stripIdent (db : Name) (par : Par) (s : Slot) (parts : List Name) (star : Bool)
+def stripIdent (db : Name) (names : List Name) (par : Par) (s : Slot) (parts : List Name) (star : Bool)
     (alias : Option (List Name)) : List Name × Option (List Name) :=
-  let parts' := stripParts db parts star
+  let parts' := stripPartsN db names (s == .tbl) parts star
   let alias' :=
     match par, s, alias, star with
     | .sel false, .tgt, none, false =>
@@ -326,19 +335,19 @@ def stripIdent (db : Name) (par : Par) (s : Slot) (parts : List Name) (star : Bo
 
 mutual
 /-- `query_traversal(node, _prepare_integration_select)` -/
-def strip (db : Name) (par : Par) (s : Slot) : Node → Node
+def strip (db : Name) (names : List Name) (par : Par) (s : Slot) : Node → Node
   | .ident parts star alias =>
-    let r := stripIdent db par s parts star alias
+    let r := stripIdent db names par s parts star alias
     .ident r.1 star r.2
   | .leaf => .leaf
   | .native => .native
-  | .func u ks => .func u (stripKids db par ks)
-  | .scope p ks => .scope p (stripKids db p ks)
-  | .plain ks => .plain (stripKids db par ks)
-def stripKids (db : Name) (par : Par) : Kids → Kids
+  | .func u ks => .func u (stripKids db names par ks)
+  | .scope p ks => .scope p (stripKids db names p ks)
+  | .plain ks => .plain (stripKids db names par ks)
+def stripKids (db : Name) (names : List Name) (par : Par) : Kids → Kids
   | .nil => .nil
-  | .cons .skip n ks => .cons .skip n (stripKids db par ks)
-  | .cons s n ks => .cons s (strip db par s n) (stripKids db par ks)
+  | .cons .skip n ks => .cons .skip n (stripKids db names par ks)
+  | .cons s n ks => .cons s (strip db names par s n) (stripKids db names par ks)
 end
 
 /-- what `find_objects` (get_query_info) can see -/
@@ -378,18 +387,18 @@ def allTablesKids : Kids → List (List Name)
 end
 
 mutual
-/-- identifiers the walker visits: (parts, star) -/
-def visitedIdents : Node → List (List Name × Bool)
-  | .ident parts star _ => [(parts, star)]
+/-- identifiers the walker visits: (parts, star, visited as a table) -/
+def visitedIdents (s : Slot) : Node → List (List Name × Bool × Bool)
+  | .ident parts star _ => [(parts, star, s == .tbl)]
   | .leaf => []
   | .native => []
   | .func _ ks => visitedIdentsKids ks
   | .scope _ ks => visitedIdentsKids ks
   | .plain ks => visitedIdentsKids ks
-def visitedIdentsKids : Kids → List (List Name × Bool)
+def visitedIdentsKids : Kids → List (List Name × Bool × Bool)
   | .nil => []
   | .cons .skip _ ks => visitedIdentsKids ks
-  | .cons _ n ks => visitedIdents n ++ visitedIdentsKids ks
+  | .cons s n ks => visitedIdents s n ++ visitedIdentsKids ks
 end
 
 mutual
@@ -441,40 +450,48 @@ def joinDots : List Name → Name
 
 def insertSet (x : Name) (s : List Name) : List Name := if x ∈ s then s else s ++ [x]
 
-/-- `find_objects` on one visited item; `cteNames`: the `'.'.join(parts) not in cte_names` filter is
-applied here (equivalent: it only removes entries from `mdb_entities`).
-`none` = PlanningException out of `resolve_database_table`. -/
-def infoStep (c : Catalog) (ctes : List Name) (qi : QueryInfo) : Item → Option QueryInfo
+/-- a bare name that is one of the CTE names -/
+def isCteRef (ctes : List Name) (parts : List Name) : Bool :=
+  match parts with
+  | [t] => ctes.contains t
+  | _ => false
+
+/-- `find_objects` on one visited item; the `'.'.join(parts) not in cte_names` filter is applied here
+(equivalent: it only removes entries from `mdb_entities`).  `none` = PlanningException out of
+`resolve_database_table`.  `skip = false`: the code today (a CTE reference is resolved like a table; it is forgiven only as a
+mindsdb entity).  `skip = true`: fixes/C11_1.diff — a bare CTE name is not looked at at all. -/
+def infoStep (skip : Bool) (c : Catalog) (ctes : List Name) (qi : QueryInfo) : Item → Option QueryInfo
   | .udf => some { qi with userFunctions := qi.userFunctions + 1 }
   | .native => some { qi with mdbEntities := qi.mdbEntities + 1 }
   | .table parts =>
+    if skip && isCteRef ctes parts then some qi else
     match resolveSimple c parts with
     | none => none
     | some (integ, _) =>
       let qi := if isPredictor c parts then { qi with predictors := qi.predictors + 1 } else qi
       if integ ∈ c.projects then
-        some (if joinDots parts ∈ ctes then qi else { qi with mdbEntities := qi.mdbEntities + 1 })
+        some (if !skip && decide (joinDots parts ∈ ctes) then qi else { qi with mdbEntities := qi.mdbEntities + 1 })
       else some { qi with integrations := insertSet integ qi.integrations }
 
-def queryInfoFrom (c : Catalog) (ctes : List Name) (qi : QueryInfo) : List Item → Option QueryInfo
+def queryInfoFrom (skip : Bool) (c : Catalog) (ctes : List Name) (qi : QueryInfo) : List Item → Option QueryInfo
   | [] => some qi
-  | it :: r => match infoStep c ctes qi it with
+  | it :: r => match infoStep skip c ctes qi it with
     | none => none
-    | some qi' => queryInfoFrom c ctes qi' r
+    | some qi' => queryInfoFrom skip c ctes qi' r
 
-def queryInfo (c : Catalog) (ctes : List Name) (items : List Item) : Option QueryInfo :=
-  queryInfoFrom c ctes ⟨0, [], 0, 0⟩ items
+def queryInfo (skip : Bool) (c : Catalog) (ctes : List Name) (items : List Item) : Option QueryInfo :=
+  queryInfoFrom skip c ctes ⟨0, [], 0, 0⟩ items
 
 /-- `QueryPlanner.check_single_integration`: the integration the whole query is sent to -/
-def checkSingle (c : Catalog) (ctes : List Name) (items : List Item) : Option Name :=
-  match queryInfo c ctes items with
+def checkSingle (skip : Bool) (c : Catalog) (ctes : List Name) (items : List Item) : Option Name :=
+  match queryInfo skip c ctes items with
   | some ⟨0, [i], _, 0⟩ =>
     if i ≠ n!"files" ∧ i ≠ n!"views" ∧ c.classType i ≠ some n!"api" then some i else none
   | _ => none
 
 /-- `PlanJoin.check_single_integration` (no user-function test) -/
-def checkSingleJoin (c : Catalog) (ctes : List Name) (items : List Item) : Option Name :=
-  match queryInfo c ctes items with
+def checkSingleJoin (skip : Bool) (c : Catalog) (ctes : List Name) (items : List Item) : Option Name :=
+  match queryInfo skip c ctes items with
   | some ⟨0, [i], _, _⟩ =>
     if i ≠ n!"files" ∧ i ≠ n!"views" ∧ c.classType i ≠ some n!"api" then some i else none
   | _ => none
@@ -485,9 +502,9 @@ inductive Step
 /-- `from_query` on a Select / Union / Except / Intersect, pushdown branch only:
 `some [fetch …]` when `check_single_integration` fires, `none` = the query goes on to `plan_select`
 (not modelled here). The root is visited with `parent_query=None`, not as a table. -/
-def planTop (c : Catalog) (ctes : List Name) (q : Node) : Option (List Step) :=
-  match checkSingle c ctes (visit .arg q) with
-  | some i => some [.fetch i (strip i .noFrom .arg q)]
+def planTop (skip : Bool) (names : List Name) (c : Catalog) (ctes : List Name) (q : Node) : Option (List Step) :=
+  match checkSingle skip c ctes (visit .arg q) with
+  | some i => some [.fetch i (strip i names .noFrom .arg q)]
   | none => none
 
 /-! ## A tiny name-resolution semantics (C11)
@@ -585,43 +602,49 @@ def resolveAlls (fed : Bool) (db : Name) (sch : Schema) (chain : List (List Inst
   | .cons s ss => resolveAll fed db sch chain s ++ resolveAlls fed db sch chain ss
 end
 
-/-- the cut applied to a plain part list (no trailing star) -/
-def cut (db : Name) (parts : List Name) : List Name := stripParts db parts false
+/-- the cut applied to a plain part list (no trailing star); `names = []`: the code today -/
+def cut (db : Name) (names : List Name) (isTab : Bool) (parts : List Name) : List Name :=
+  stripPartsN db names isTab parts false
 
 mutual
-def stripSel (db : Name) : Sel → Sel
-  | .mk tabs cols subs => .mk (tabs.map fun t => { t with parts := cut db t.parts }) (cols.map (cut db)) (stripSels db subs)
-def stripSels (db : Name) : Sels → Sels
+def stripSel (db : Name) (names : List Name) : Sel → Sel
+  | .mk tabs cols subs =>
+    .mk (tabs.map fun t => { t with parts := cut db names true t.parts }) (cols.map (cut db names false))
+      (stripSels db names subs)
+def stripSels (db : Name) (names : List Name) : Sels → Sels
   | .nil => .nil
-  | .cons s ss => .cons (stripSel db s) (stripSels db ss)
+  | .cons s ss => .cons (stripSel db names s) (stripSels db names ss)
 end
 
-/-- table references allowed in the semantic fragment: `[t]` or `[db.]t`, and the exposed name
-(alias, else table name) is not the integration name -/
+/-- table references allowed in the semantic fragment: `[t]` or `[db.]t` -/
 def okTab (db : Name) (t : TRef) : Bool :=
-  (match t.parts with
-   | [_] => true
-   | [q, _] => lower q = db
-   | _ => false) &&
-  (match t.alias, t.parts.getLast? with
-   | some a, _ => lower a ≠ db
-   | none, some n => lower n ≠ db
-   | none, none => false)
+  match t.parts with
+  | [_] => true
+  | [q, _] => lower q = db
+  | _ => false
 
-/-- column references allowed: a two-part reference is not qualified by the integration name
-(the chain of enclosing scopes is not needed for this reading, it is kept for the statement's shape) -/
-def okCol (db : Name) (_chain : List (List TRef)) (r : List Name) : Bool :=
+/-- column references allowed: a two-part reference qualified by the integration name is only allowed
+when the cut leaves it alone (`db ∈ names`: it is an alias or CTE name) -/
+def okCol (db : Name) (names : List Name) (r : List Name) : Bool :=
   match r with
-  | [q, _] => lower q ≠ db
+  | [q, _] => lower q ≠ db || names.contains db
   | _ => true
 
 mutual
-def okSel (db : Name) (chain : List (List TRef)) : Sel → Bool
-  | .mk tabs cols subs =>
-    tabs.all (okTab db) && cols.all (okCol db (tabs :: chain)) && okSels db (tabs :: chain) subs
-def okSels (db : Name) (chain : List (List TRef)) : Sels → Bool
+def okSel (db : Name) (names : List Name) : Sel → Bool
+  | .mk tabs cols subs => tabs.all (okTab db) && cols.all (okCol db names) && okSels db names subs
+def okSels (db : Name) (names : List Name) : Sels → Bool
   | .nil => true
-  | .cons s ss => okSel db chain s && okSels db chain ss
+  | .cons s ss => okSel db names s && okSels db names ss
+end
+
+mutual
+/-- lower-cased aliases of the query (what the repaired planner collects; CTE names would be added to it) -/
+def aliasesOf : Sel → List Name
+  | .mk tabs _ subs => tabs.filterMap (fun t => t.alias.map lower) ++ aliasesOfs subs
+def aliasesOfs : Sels → List Name
+  | .nil => []
+  | .cons s ss => aliasesOf s ++ aliasesOfs ss
 end
 
 /-- output column name of an identifier target -/
